@@ -121,6 +121,27 @@ class C13(Prop):
             yield ("FRAME " + hx(fr), "internal-length-beyond-payload", True)
 
 
+def damaged_repeats(r, n):
+    """a valid frame followed directly by a copy of itself damaged in the checksum / payload / reserved bits
+    (a scanner that remembers what it delivered must not wave the repeat through), alone and followed by a
+    pristine copy"""
+    out = []
+    for _ in range(n):
+        L = r.choice([0, 1, 2, 5, 19, 60])
+        f = mk_frame(payload_for(r, L, r.choice(SUPPORTED)), r.choice([0, 0, 9]))
+        nb = len(f) * 8
+        picks = [[nb - 1], [nb - 24], [nb - 1 - r.randrange(24)], [nb - 24 + k for k in range(24)], [nb - 8, nb - 16],
+                 [8 + r.randrange(6)]] + ([[24 + r.randrange(L * 8)]] if L else [])
+        for bits in picks:
+            g = bytearray(f)
+            for b in bits:
+                g[b // 8] ^= 0x80 >> (b % 8)
+            out.append(f + bytes(g))
+            out.append(f + bytes(g) + f)
+            out.append(f + f + bytes(g))
+    return out
+
+
 def preamble_like_frames(r):
     """valid frames whose own header / first payload bytes equal the preamble value 0xD3: second byte
     (reserved bits 110100 with L in 768..1023), third byte (L = 211, 467, 723, 979), both, and payloads
@@ -200,6 +221,9 @@ class C05(Prop):
             for cut in (1, 2, 3, 4):
                 yield ("SCAN " + hx(g0 + f[:-cut]), "special-checksum-truncated", True)
                 yield ("ITER " + hx(f + f[:-cut]), "special-checksum-truncated", True)
+        for s in damaged_repeats(r, 6 if ctx.tier == "quick" else 20):
+            yield ("ITER " + hx(s), "damaged-repeat", True)
+            yield ("SCAN " + hx(s), "damaged-repeat", True)
         for f in preamble_like_frames(r):
             yield ("SCAN " + hx(f), "preamble-like-header", True)
             yield ("ITER " + hx(b"\xd3" + f + b"\xd3\xd3" + f), "preamble-like-header", True)
@@ -258,6 +282,11 @@ class C06(Prop):
                 ops.append("a" + hx(p))
                 ops += ["s"] * r.choice([0, 0, 1, 1, 2, 3])
             yield ("SCHED " + "|".join(ops), "schedule", len(parts) >= 2)
+        for s in damaged_repeats(r, 4):
+            for k in range(3):
+                cuts = sorted(set(r.randrange(0, len(s) + 1) for _ in range(r.randrange(1, 4))))
+                parts = [s[a:b] for a, b in zip([0] + cuts, cuts + [len(s)])]
+                yield ("FEED " + "|".join(hx(p) for p in parts), "damaged-repeat", True)
         frames = [mk_frame(payload_for(r, 6, 1005)), mk_frame(b""), mk_frame(payload_for(r, 1, 1005)), mk_frame(payload_for(r, 2, 1077), 63)]
         frames += preamble_like_frames(r)
         frames += [frame_with_crc(r, r.choice([3, 5, 8]), c, r.choice(SUPPORTED)) for c in special_crcs(ctx.repo)]
@@ -295,6 +324,9 @@ class C04(Prop):
 
         for c in special_crcs(ctx.repo):
             frames.append(frame_with_crc(r, r.choice([3, 4, 7, 16]), c, r.choice(SUPPORTED), r.choice([0, 0, 63])))
+        # altered copies directly behind the frame they were made from, through the iterator and the scanner
+        for s in damaged_repeats(r, 10 if not thorough else 30):
+            yield ("ITER " + hx(s), "damaged-repeat", True)
 
         def admissible(nbits):
             return [p for p in range(nbits) if 8 <= p < 14 or p >= 24]
